@@ -532,4 +532,94 @@ INTR = Harness(
     stubs=STUBS_COMMON,
 )
 
-HARNESSES = [H, TWO, INTR]
+
+# ------------------------------------------------------------------------------ T-early / T-double-fault
+def early_params(tier):
+    return [P("scenario", 0, 1), P("handler", 0, 2), P("api", 0, 1), P("when", 0, 2)]
+
+
+@guard
+def early_fn(a, tier):
+    """(0) a task that takes task_status and raises BEFORE calling started(); (1) a declined task exception raised while another failure is already
+    taking the application down."""
+    scenario, handler_kind, api, when = pick(a["scenario"], 2), pick(a["handler"], 3), pick(a["api"], 2), pick(a["when"], 3)
+    Cancelled = symsched.Cancelled
+    early, late, crash = ValueError("fails during its start-up"), ValueError("could not flush while being cancelled"), RuntimeError("service task failed")
+    handled, out = [], {}
+
+    def handler(exc):
+        handled.append(exc)
+        return False if handler_kind == 1 else None
+
+    async def starting_job(*, task_status):
+        for _ in range(when):
+            await anyio.sleep(0)
+        raise early
+
+    async def flusher():
+        try:
+            await anyio.sleep_forever()
+        except Cancelled:
+            raise late  # its clean-up fails while the application is going down
+
+    async def crasher():
+        for _ in range(when):
+            await anyio.sleep(0)
+        raise crash
+
+    async def main():
+        async with Context() as root:
+            tf = await root.start_background_task_factory(**({"exception_handler": handler} if handler_kind else {}))
+            if scenario == 0:
+                try:
+                    await tf.start_task(starting_job, "job")
+                    out["start"] = None
+                except BaseException as e:  # noqa
+                    out["start"] = e
+                out["handles"] = len(tf.all_task_handles())
+            else:
+                if api == 0:
+                    await tf.start_task(flusher, "flusher")
+                else:
+                    tf.start_task_soon(flusher, "flusher")
+                await root.start_service_task(crasher, "crasher")
+                await anyio.sleep(50)
+
+    _, exc, k = run(main)
+    summary = {"scenario": ["start_task() of a task that raises before task_status.started()", "a service task crashes; a factory task's clean-up then raises and the handler declines"][scenario],
+               "handler": ["none", "returns False", "returns None"][handler_kind], "checkpoints_before_the_failure": when}
+    if scenario == 0:
+        # the handler is consulted (and declines) or absent: the spawner gets the task's own exception
+        if out.get("start") is not early:
+            return FAIL(f"early:start_task-did-not-raise-the-tasks-own-exception:{type(out.get('start')).__name__}", repr(out.get("start")), summary)
+        if out.get("handles"):
+            return FAIL("early:handle-left-behind", "", summary)
+        if exc is not None and not any(x is early for x in flatten(exc)):
+            return FAIL(f"early:foreign-exception-left-the-root-context:{type(flatten(exc)[0]).__name__}", repr(exc), summary)
+        return OK(summary, True)
+    leaves = flatten(exc) if exc is not None else []
+    if not any(x is crash for x in leaves):
+        return FAIL("double:service-task-crash-did-not-leave-the-root-context", repr(exc), summary)
+    if not any(x is late for x in leaves):
+        return FAIL("double:declined-task-exception-never-left-the-root-context", repr(exc), summary)
+    if handler_kind and sum(1 for h in handled if h is late) != 1:
+        return FAIL("double:handler-not-consulted-exactly-once", repr(handled), summary)
+    return OK(summary, True)
+
+
+EARLY = Harness(
+    prop="C09",
+    name="T-early",
+    fn=early_fn,
+    params=early_params,
+    cube=lambda tier: 0,
+    title="a task failing before task_status.started(); a declined task exception arriving while another failure is already propagating",
+    bound_text=lambda tier: "(0) start_task() of a job that raises after 0-2 checkpoints without calling started(); (1) a service task of the root context crashes after 0-2 checkpoints while a "
+    "factory task (start_task / start_task_soon) is blocked, whose clean-up then raises; no handler / a handler returning False / None",
+    oracle="(0) start_task() raises the job's own exception object and leaves no handle; (1) both the crash and the declined task exception are among what leaves the root context, "
+    "the handler having been consulted exactly once",
+    outside="-",
+    stubs=STUBS_COMMON,
+)
+
+HARNESSES = [H, TWO, INTR, EARLY]
